@@ -32,7 +32,7 @@ DATA_ARG = {"set_min": 3, "set_max": 3, "set_pmin": 4, "set_pmax": 4, "add_ineq"
 
 def run(ctx):
     from translate import alglists
-    ctx.lean_stage(["C15", "C15History"], translators=[alglists.run])
+    ctx.lean_stage(["C15", "C15History"])
     bdir = ctx.repo_stage()
     if bdir and getattr(ctx, "alg", None):
         rng = random.Random(ctx.seed)
